@@ -134,3 +134,265 @@ package app
 //@   invariant@1 forall j :: 0 <= j && j <= rangeindex ==> flagsMonotone(app, j)
 //@   invariant@2 numVotes == cntSeen(mapdom(app.BlocksSeen), mapvals(app.BlocksSeen), elemsof(app.Configs[allowanceConfigIndex].Keypers), offof(app.Configs[allowanceConfigIndex].Keypers), rangeindex + 1, config.ActivationBlockNumber)
 //@   invariant@2 numVotes <= rangeindex + 1
+//@
+//@ // ---- Voting (C09 determinism, C11 governance) -----------------------------------------------------------
+//@ // representation invariant of a Voting: every vote names an existing candidate
+//@ pred votingInv(v) := v != nil && v.Votes != nil && (forall a Arr :: has(v.Votes, a) ==> (0 <= v.Votes[a] && v.Votes[a] < len(v.Candidates)))
+//@
+//@ // C09: the outcome is a function of the votes, not of Go's map iteration order: the histogram loop is
+//@ // order independent (commutativity obligation), and the winner is the lowest candidate index with
+//@ // enough votes.
+//@ func (*Voting).outcomeIndex
+//@   requires votingInv(v)
+//@   opt order-indep = check
+//@   ensures ret1 ==> (0 <= ret0 && ret0 < len(v.Candidates))
+//@   ensures ret1 ==> (numVotes[ret0] > 0 && numVotes[ret0] >= numRequiredVotes)
+//@   ensures ret1 ==> (forall j :: 0 <= j && j < ret0 ==> !(pw(numVotes, j) > 0 && pw(numVotes, j) >= numRequiredVotes))
+//@   ensures !ret1 ==> (ret0 == 0 - 1 && (forall j :: 0 <= j && j < len(v.Candidates) ==> !(pw(numVotes, j) > 0 && pw(numVotes, j) >= numRequiredVotes)))
+//@   invariant@1 numVotes != nil && fresh(numVotes)
+//@   invariant@2 forall j :: 0 <= j && j <= rangeindex ==> !(pw(numVotes, j) > 0 && pw(numVotes, j) >= numRequiredVotes)
+//@
+//@ // ---- transactions: decoding, replay protection (C10, C11) -------------------------------------------------
+//@ pred ntInv(t) := t != nil && t.RandomNonces != nil && (forall a Arr :: has(t.RandomNonces, a) ==> t.RandomNonces[a] != nil) && (forall a Arr, b Arr :: (has(t.RandomNonces, a) && has(t.RandomNonces, b) && a != b) ==> t.RandomNonces[a] != t.RandomNonces[b])
+//@ pred nonceUsed(t, a, n) := has(t.RandomNonces, a) && has(t.RandomNonces[a], n) && t.RandomNonces[a][n]
+//@ func (*NonceTracker).Check
+//@   requires ntInv(t)
+//@   ensures ret0 <==> !nonceUsed(t, sender, randomNonce)
+//@ func (*NonceTracker).Add
+//@   requires ntInv(t)
+//@   assigns mapof(map[common.Address]map[uint64]bool), mapof(map[uint64]bool)
+//@   ensures ntInv(t) && nonceUsed(t, sender, randomNonce)
+//@   ensures forall a Arr, n :: old(nonceUsed(t, a, n)) ==> nonceUsed(t, a, n)
+//@   ensures forall a Arr, n :: (nonceUsed(t, a, n) && !old(nonceUsed(t, a, n))) ==> (a == sender && n == randomNonce)
+//@
+//@ func (ShutterApp).decodeTx
+//@   ensures err == nil ==> msg != nil
+//@   // A-proto: a decoded message has well-formed oneof wrappers (protobuf never produces typed-nil wrappers)
+//@   assumes err == nil ==> (msg.Msg != nil ==> wfPayload(msg.Msg))
+//@
+//@ // ---- governance state machine (C10, C11) -----------------------------------------------------------------
+//@ // DKG bookkeeping: every instance is filed under its own eon number, and no eon number above the counter
+//@ // has been handed out
+//@ pred dkgFiled(app) := forall e :: has(app.DKGMap, e) ==> (e <= app.EONCounter && app.DKGMap[e] != nil && app.DKGMap[e].Eon == e && app.DKGMap[e].PolyEvalsSeen != nil && app.DKGMap[e].PolyCommitmentsSeen != nil && app.DKGMap[e].AccusationsSeen != nil && app.DKGMap[e].ApologiesSeen != nil)
+//@ pred dkgVotings(app) := forall e :: has(app.DKGMap, e) ==> votingInvD(app.DKGMap[e])
+//@ pred dkgSeparate(app) := forall e1, e2 :: (has(app.DKGMap, e1) && has(app.DKGMap, e2) && e1 != e2) ==> app.DKGMap[e1].SuccessVoting.Votes != app.DKGMap[e2].SuccessVoting.Votes
+//@ pred dkgInv(app) := app.DKGMap != nil && app.EONCounter < 18446744073709551615 && dkgFiled(app) && dkgVotings(app) && dkgSeparate(app)
+//@ pred votingInvD(d) := d.SuccessVoting.Votes != nil && (forall a Arr :: has(d.SuccessVoting.Votes, a) ==> (0 <= d.SuccessVoting.Votes[a] && d.SuccessVoting.Votes[a] < len(d.SuccessVoting.Candidates)))
+//@ pred votingsSeparate(app) := forall e :: has(app.DKGMap, e) ==> app.DKGMap[e].SuccessVoting.Votes != app.ConfigVoting.Votes
+//@ pred appInv(app) := appCfgInv(app) && len(app.Configs) >= 1 && dkgInv(app) && ntInv(app.NonceTracker) && app.CheckTxState != nil && votingInv(app.ConfigVoting) && votingsSeparate(app)
+//@
+//@ func (*ShutterApp).LastConfig
+//@   requires app != nil && len(app.Configs) >= 1
+//@   ensures ret0 == app.Configs[len(app.Configs) - 1]
+//@
+//@ // every start of an eon takes a fresh, strictly larger number
+//@ func (*ShutterApp).StartDKG
+//@   requires app != nil && dkgInv(app) && app.EONCounter < 18446744073709551614
+//@   assigns app.ShutterApp.EONCounter, mapof(map[uint64]*app.DKGInstance)
+//@   ensures app.EONCounter == old(app.EONCounter) + 1 && !old(has(app.DKGMap, app.EONCounter + 1))
+//@   ensures ret0 != nil && fresh(ret0) && ret0.Eon == app.EONCounter && has(app.DKGMap, app.EONCounter) && app.DKGMap[app.EONCounter] == ret0
+//@   ensures ret0.Config.Threshold == config.Threshold && ret0.Config.KeyperConfigIndex == config.KeyperConfigIndex && ret0.Config.ActivationBlockNumber == config.ActivationBlockNumber
+//@   ensures forall e :: e != app.EONCounter ==> (has(app.DKGMap, e) == old(has(app.DKGMap, e)) && app.DKGMap[e] == old(app.DKGMap[e]))
+//@   ensures ret0.SuccessVoting.Votes != nil && fresh(ret0.SuccessVoting.Votes) && len(ret0.SuccessVoting.Candidates) == 0 && (forall a Arr :: !has(ret0.SuccessVoting.Votes, a))
+//@   ensures dkgFiled(app)
+//@   ensures dkgVotings(app)
+//@   ensures dkgSeparate(app)
+//@
+//@ // one vote per sender per round: a second vote is refused and changes nothing
+//@ func (*Voting).AddVote
+//@   requires votingInv(v)
+//@   assigns mapobj(v.Votes), self.Candidates
+//@   ensures old(has(v.Votes, sender)) ==> (ret0 != nil && len(v.Candidates) == old(len(v.Candidates)) && (forall a Arr :: has(v.Votes, a) == old(has(v.Votes, a)) && v.Votes[a] == old(v.Votes[a])))
+//@   ensures !old(has(v.Votes, sender)) ==> (ret0 == nil && has(v.Votes, sender))
+//@   ensures forall a Arr :: a != sender ==> (has(v.Votes, a) == old(has(v.Votes, a)) && v.Votes[a] == old(v.Votes[a]))
+//@   ensures votingInv(v) && len(v.Candidates) >= old(len(v.Candidates)) && len(v.Candidates) <= old(len(v.Candidates)) + 1
+//@
+//@ func (*Voting).SetVote
+//@   requires votingInv(v)
+//@   assigns mapobj(v.Votes), self.Candidates
+//@   ensures has(v.Votes, sender) && votingInv(v)
+//@   ensures forall a Arr :: a != sender ==> (has(v.Votes, a) == old(has(v.Votes, a)) && v.Votes[a] == old(v.Votes[a]))
+//@   ensures len(v.Candidates) >= old(len(v.Candidates)) && len(v.Candidates) <= old(len(v.Candidates)) + 1
+//@   invariant forall a Arr :: has(v.Votes, a) == old(has(v.Votes, a))
+//@
+//@ func (*Voting).Outcome
+//@   requires votingInv(v)
+//@   ensures ret1 ==> (0 <= idx && idx < len(v.Candidates))
+//@
+//@ // a restart happens only for the newest eon and only on a failure outcome; it takes a fresh number
+//@ func (*ShutterApp).maybeStartEon
+//@   requires app != nil && dkgInv(app) && app.EONCounter < 18446744073709551614
+//@   assigns app.ShutterApp.EONCounter, mapof(map[uint64]*app.DKGInstance)
+//@   ensures ret1 ==> (eon == old(app.EONCounter) && old(has(app.DKGMap, eon)))
+//@   ensures ret1 ==> (ok && !success)
+//@   ensures ret1 ==> (app.EONCounter == old(app.EONCounter) + 1 && ret0 != nil && ret0.Eon == app.EONCounter && !old(has(app.DKGMap, app.EONCounter + 1)))
+//@   ensures ret1 ==> (fresh(ret0) && fresh(ret0.SuccessVoting.Votes) && has(app.DKGMap, app.EONCounter) && app.DKGMap[app.EONCounter] == ret0)
+//@   ensures ret1 ==> (forall e :: e != app.EONCounter ==> (has(app.DKGMap, e) == old(has(app.DKGMap, e)) && app.DKGMap[e] == old(app.DKGMap[e])))
+//@   ensures !ret1 ==> (app.EONCounter == old(app.EONCounter) && (forall e :: has(app.DKGMap, e) == old(has(app.DKGMap, e)) && app.DKGMap[e] == old(app.DKGMap[e])))
+//@   ensures dkgFiled(app)
+//@   ensures dkgVotings(app)
+//@   ensures dkgSeparate(app)
+//@
+//@ pred cfgOK(app, cfg) := cfgValid(cfg) && cfg.ActivationBlockNumber >= app.Configs[len(app.Configs) - 1].ActivationBlockNumber && cfg.KeyperConfigIndex > app.Configs[len(app.Configs) - 1].KeyperConfigIndex
+//@ // a configuration can be added iff it is valid, its index is strictly larger and its activation block not
+//@ // smaller than the newest one
+//@ func (*ShutterApp).checkConfig
+//@   requires app != nil && len(app.Configs) >= 1 && app.Configs[len(app.Configs) - 1] != nil && len(cfg.Keypers) <= 1048576
+//@   ensures ret0 == nil <==> cfgOK(app, cfg)
+//@
+//@ func (*ShutterApp).allowedToVoteOnConfigChanges
+//@   requires app != nil && len(app.Configs) >= 1 && app.Configs[len(app.Configs) - 1] != nil
+//@   ensures ret0 <==> isMember(app.Configs[len(app.Configs) - 1], sender)
+//@
+//@ func (*ShutterApp).isKeyper
+//@   requires app != nil && wfConfigs(app)
+//@   ensures ret0 <==> (exists i :: 0 <= i && i < len(app.Configs) && isMember(app.Configs[i], a))
+//@   invariant forall j :: 0 <= j && j <= rangeindex ==> !isMember(app.Configs[j], a)
+//@
+//@ pred configsUnchanged(app) := len(app.Configs) == old(len(app.Configs)) && (forall i :: 0 <= i && i < len(app.Configs) ==> app.Configs[i] == old(app.Configs[i]))
+//@ func (*ShutterApp).addConfig
+//@   requires app != nil && app.CheckTxState != nil && wfConfigs(app) && len(app.Configs) >= 1 && len(cfg.Keypers) <= 1048576
+//@   ensures ret0 == nil <==> old(cfgOK(app, cfg))
+//@   ensures ret0 != nil ==> configsUnchanged(app)
+//@   ensures ret0 == nil ==> (len(app.Configs) == old(len(app.Configs)) + 1 && (forall i :: 0 <= i && i < old(len(app.Configs)) ==> app.Configs[i] == old(app.Configs[i])))
+//@   ensures ret0 == nil ==> (app.Configs[len(app.Configs) - 1] != nil && fresh(app.Configs[len(app.Configs) - 1]) && app.Configs[len(app.Configs) - 1].KeyperConfigIndex == cfg.KeyperConfigIndex && app.Configs[len(app.Configs) - 1].Threshold == cfg.Threshold && app.Configs[len(app.Configs) - 1].ActivationBlockNumber == cfg.ActivationBlockNumber && len(app.Configs[len(app.Configs) - 1].Keypers) == len(cfg.Keypers))
+//@   assigns app.ShutterApp.Configs, app.CheckTxState.Members
+//@
+//@ pred votesEmpty(app) := forall a Arr :: !has(app.ConfigVoting.Votes, a)
+//@ pred votesUnchanged(app) := forall a Arr :: (has(app.ConfigVoting.Votes, a) == old(has(app.ConfigVoting.Votes, a)) && app.ConfigVoting.Votes[a] == old(app.ConfigVoting.Votes[a]))
+//@ pred dkgMapUnchanged(app) := forall e :: (has(app.DKGMap, e) == old(has(app.DKGMap, e)) && app.DKGMap[e] == old(app.DKGMap[e]))
+//@
+//@ // C11: a configuration is accepted only when it passes checkConfig against the newest configuration, the
+//@ // sender is a member of that newest configuration and has not voted in this round, and the outcome query
+//@ // at the newest configuration's threshold succeeds; acceptance resets the votes and starts a fresh eon.
+//@ // C10: a refused message (code != 0) changes neither configurations, votes, eons nor the DKG map.
+//@ func (*ShutterApp).deliverBatchConfig
+//@   requires appInv(app) && msg != nil && len(msg.Keypers) <= 1048576 && app.EONCounter < 18446744073709551614
+//@   assigns app.ShutterApp.Configs, app.CheckTxState.Members, app.ShutterApp.EONCounter, app.ShutterApp.ConfigVoting.Votes, app.ShutterApp.ConfigVoting.Candidates, mapof(map[uint64]*app.DKGInstance), mapobj(app.ConfigVoting.Votes)
+//@   ensures len(app.Configs) == old(len(app.Configs)) || len(app.Configs) == old(len(app.Configs)) + 1
+//@   ensures forall i :: 0 <= i && i < old(len(app.Configs)) ==> app.Configs[i] == old(app.Configs[i])
+//@   ensures len(app.Configs) == old(len(app.Configs)) + 1 ==> (ret0.Code == 0 && old(cfgOK(app, bc)) && old(isMember(app.Configs[len(app.Configs) - 1], sender)) && !old(has(app.ConfigVoting.Votes, sender)))
+//@   ensures len(app.Configs) == old(len(app.Configs)) + 1 ==> (app.EONCounter == old(app.EONCounter) + 1 && votesEmpty(app) && app.Configs[len(app.Configs) - 1].KeyperConfigIndex == bc.KeyperConfigIndex && app.Configs[len(app.Configs) - 1].Threshold == bc.Threshold && app.Configs[len(app.Configs) - 1].ActivationBlockNumber == bc.ActivationBlockNumber)
+//@   ensures len(app.Configs) == old(len(app.Configs)) ==> (app.EONCounter == old(app.EONCounter) && dkgMapUnchanged(app))
+//@   ensures ret0.Code != 0 ==> (len(app.Configs) == old(len(app.Configs)) && votesUnchanged(app) && len(ret0.Events) == 0)
+//@   ensures (ret0.Code == 0 && len(app.Configs) == old(len(app.Configs))) ==> (old(isMember(app.Configs[len(app.Configs) - 1], sender)) && !old(has(app.ConfigVoting.Votes, sender)))
+//@   // the representation invariant is preserved
+//@   ensures wfConfigs(app) && len(app.Configs) >= 1
+//@   ensures forall a, b :: 0 <= a && a < b && b < len(app.Configs) ==> app.Configs[a] != app.Configs[b]
+//@   ensures dkgFiled(app)
+//@   ensures dkgVotings(app)
+//@   ensures dkgSeparate(app)
+//@   ensures votingInv(app.ConfigVoting)
+//@   ensures votingsSeparate(app)
+//@
+//@ // C11: a key generation is restarted only for the newest eon, only by a member of that eon's keyper set who
+//@ // has not voted before, and only on a failure outcome at that eon's threshold; the restart gets a fresh
+//@ // number. C10: refused messages change nothing.
+//@ func (*ShutterApp).deliverDKGResult
+//@   requires appInv(app) && msg != nil && app.EONCounter < 18446744073709551614
+//@   assigns app.ShutterApp.EONCounter, mapof(map[uint64]*app.DKGInstance), mapobj(app.DKGMap[msg.Eon].SuccessVoting.Votes), app.DKGInstance.SuccessVoting.Candidates
+//@   ensures app.EONCounter == old(app.EONCounter) || app.EONCounter == old(app.EONCounter) + 1
+//@   ensures app.EONCounter == old(app.EONCounter) + 1 ==> ret0.Code == 0
+//@   ensures app.EONCounter == old(app.EONCounter) + 1 ==> msg.Eon == old(app.EONCounter)
+//@   ensures app.EONCounter == old(app.EONCounter) + 1 ==> old(has(app.DKGMap, msg.Eon))
+//@   ensures app.EONCounter == old(app.EONCounter) + 1 ==> old(isMember(app.DKGMap[msg.Eon].Config, sender))
+//@   ensures app.EONCounter == old(app.EONCounter) + 1 ==> !old(has(app.DKGMap[msg.Eon].SuccessVoting.Votes, sender))
+//@   ensures app.EONCounter == old(app.EONCounter) + 1 ==> !old(has(app.DKGMap, app.EONCounter + 1))
+//@   ensures ret0.Code != 0 ==> (app.EONCounter == old(app.EONCounter) && dkgMapUnchanged(app) && len(ret0.Events) == 0)
+//@   ensures votesUnchanged(app)
+//@   ensures ret0.Code != 0 ==> (forall e, a Arr :: has(app.DKGMap, e) ==> (has(app.DKGMap[e].SuccessVoting.Votes, a) == old(has(app.DKGMap[e].SuccessVoting.Votes, a))))
+//@   ensures dkgFiled(app)
+//@   ensures dkgVotings(app)
+//@   ensures dkgSeparate(app)
+//@   ensures votingsSeparate(app)
+//@
+//@ // check-in: only keypers of some configuration; a refused check-in leaves the identities unchanged
+//@ func (*ShutterApp).deliverCheckIn
+//@   requires appInv(app) && msg != nil
+//@   assigns mapof(map[common.Address]app.ValidatorPubkey)
+//@   ensures ret0.Code == 0 ==> (exists i :: 0 <= i && i < len(app.Configs) && isMember(app.Configs[i], sender))
+//@   ensures ret0.Code != 0 ==> (forall a Arr :: has(app.Identities, a) == old(has(app.Identities, a)) && app.Identities[a].Ed25519pubkey == old(app.Identities[a].Ed25519pubkey))
+//@   ensures forall a Arr :: a != sender ==> (has(app.Identities, a) == old(has(app.Identities, a)) && app.Identities[a].Ed25519pubkey == old(app.Identities[a].Ed25519pubkey))
+//@   ensures ret0.Code != 0 ==> len(ret0.Events) == 0
+//@
+//@ // block-seen reports only ever raise the sender's own entry
+//@ func (*ShutterApp).deliverBlockSeen
+//@   requires appInv(app) && msg != nil
+//@   assigns mapof(map[common.Address]uint64)
+//@   ensures ret0.Code == 0 && len(ret0.Events) == 0
+//@   ensures forall a Arr :: a != sender ==> (has(app.BlocksSeen, a) == old(has(app.BlocksSeen, a)) && app.BlocksSeen[a] == old(app.BlocksSeen[a]))
+//@   ensures pw(app.BlocksSeen, sender) >= old(pw(app.BlocksSeen, sender)) && pw(app.BlocksSeen, sender) >= msg.BlockNumber
+//@
+//@ // ---- DKG message handlers (C10): an error changes nothing -------------------------------------------------
+//@ pred dkgSeenInv(d) := d != nil && d.PolyEvalsSeen != nil && d.PolyCommitmentsSeen != nil && d.AccusationsSeen != nil && d.ApologiesSeen != nil
+//@ func (*DKGInstance).RegisterPolyEvalMsg
+//@   requires dkgSeenInv(dkg)
+//@   assigns mapobj(dkg.PolyEvalsSeen)
+//@   ensures ret0 != nil ==> (forall k :: mapdom(dkg.PolyEvalsSeen)[k] == old(mapdom(dkg.PolyEvalsSeen)[k]))
+//@   invariant@1 forall k :: mapdom(dkg.PolyEvalsSeen)[k] == old(mapdom(dkg.PolyEvalsSeen)[k])
+//@ func (*DKGInstance).RegisterPolyCommitmentMsg
+//@   requires dkgSeenInv(dkg)
+//@   assigns mapobj(dkg.PolyCommitmentsSeen)
+//@   ensures ret0 != nil ==> (forall a Arr :: has(dkg.PolyCommitmentsSeen, a) == old(has(dkg.PolyCommitmentsSeen, a)))
+//@   ensures ret0 == nil ==> (isMember(dkg.Config, msg.Sender) && !old(has(dkg.PolyCommitmentsSeen, msg.Sender)) && msg.Eon == dkg.Eon)
+//@ func (*DKGInstance).RegisterAccusationMsg
+//@   requires dkgSeenInv(dkg)
+//@   assigns mapobj(dkg.AccusationsSeen)
+//@   ensures ret0 != nil ==> (forall a Arr :: has(dkg.AccusationsSeen, a) == old(has(dkg.AccusationsSeen, a)))
+//@   ensures ret0 == nil ==> (isMember(dkg.Config, msg.Sender) && !old(has(dkg.AccusationsSeen, msg.Sender)) && msg.Eon == dkg.Eon)
+//@ func (*DKGInstance).RegisterApologyMsg
+//@   requires dkgSeenInv(dkg)
+//@   assigns mapobj(dkg.ApologiesSeen)
+//@   ensures ret0 != nil ==> (forall a Arr :: has(dkg.ApologiesSeen, a) == old(has(dkg.ApologiesSeen, a)))
+//@   ensures ret0 == nil ==> (isMember(dkg.Config, msg.Sender) && !old(has(dkg.ApologiesSeen, msg.Sender)) && msg.Eon == dkg.Eon)
+//@
+//@ pred seenUnchanged(app) := forall e :: has(app.DKGMap, e) ==> ((forall k :: mapdom(app.DKGMap[e].PolyEvalsSeen)[k] == old(mapdom(app.DKGMap[e].PolyEvalsSeen)[k])) && (forall a Arr :: has(app.DKGMap[e].PolyCommitmentsSeen, a) == old(has(app.DKGMap[e].PolyCommitmentsSeen, a)) && has(app.DKGMap[e].AccusationsSeen, a) == old(has(app.DKGMap[e].AccusationsSeen, a)) && has(app.DKGMap[e].ApologiesSeen, a) == old(has(app.DKGMap[e].ApologiesSeen, a))))
+//@ func (*ShutterApp).handlePolyEvalMsg
+//@   requires appInv(app) && msg != nil
+//@   assigns mapof(map[app.SenderReceiverPair]struct{})
+//@   ensures ret0.Code != 0 ==> (len(ret0.Events) == 0 && seenUnchanged(app))
+//@ func (*ShutterApp).handlePolyCommitmentMsg
+//@   requires appInv(app) && msg != nil
+//@   assigns mapof(map[common.Address]struct{})
+//@   ensures ret0.Code != 0 ==> (len(ret0.Events) == 0 && seenUnchanged(app))
+//@ func (*ShutterApp).handleAccusationMsg
+//@   requires appInv(app) && msg != nil
+//@   assigns mapof(map[common.Address]struct{})
+//@   ensures ret0.Code != 0 ==> (len(ret0.Events) == 0 && seenUnchanged(app))
+//@ func (*ShutterApp).handleApologyMsg
+//@   requires appInv(app) && msg != nil
+//@   assigns mapof(map[common.Address]struct{})
+//@   ensures ret0.Code != 0 ==> (len(ret0.Events) == 0 && seenUnchanged(app))
+//@
+//@ pred identitiesUnchanged(app) := forall a Arr :: (has(app.Identities, a) == old(has(app.Identities, a)) && app.Identities[a].Ed25519pubkey == old(app.Identities[a].Ed25519pubkey))
+//@ pred blocksSeenUnchanged(app) := forall a Arr :: (has(app.BlocksSeen, a) == old(has(app.BlocksSeen, a)) && app.BlocksSeen[a] == old(app.BlocksSeen[a]))
+//@ pred dkgVotesUnchanged(app) := forall e, a Arr :: has(app.DKGMap, e) ==> (has(app.DKGMap[e].SuccessVoting.Votes, a) == old(has(app.DKGMap[e].SuccessVoting.Votes, a)))
+//@ // C10: whatever the payload, a refused message (code != 0) has no effect on the consensus state
+//@ pred noEffect(app) := len(app.Configs) == old(len(app.Configs)) && (forall i :: 0 <= i && i < len(app.Configs) ==> app.Configs[i] == old(app.Configs[i])) && app.EONCounter == old(app.EONCounter) && votesUnchanged(app) && dkgMapUnchanged(app) && dkgVotesUnchanged(app) && identitiesUnchanged(app) && seenUnchanged(app)
+//@
+//@ // A-proto: decoded oneof wrappers are never typed nil pointers; A-size: a transaction carries at most 2^20 keyper addresses
+//@ pred wfPayload(m) := (typeis(m.Payload, "*shmsg.Message_BatchConfig") ==> as(m.Payload, "*shmsg.Message_BatchConfig") != nil) && (typeis(m.Payload, "*shmsg.Message_BlockSeen") ==> as(m.Payload, "*shmsg.Message_BlockSeen") != nil) && (typeis(m.Payload, "*shmsg.Message_CheckIn") ==> as(m.Payload, "*shmsg.Message_CheckIn") != nil) && (typeis(m.Payload, "*shmsg.Message_PolyEval") ==> as(m.Payload, "*shmsg.Message_PolyEval") != nil) && (typeis(m.Payload, "*shmsg.Message_PolyCommitment") ==> as(m.Payload, "*shmsg.Message_PolyCommitment") != nil) && (typeis(m.Payload, "*shmsg.Message_Accusation") ==> as(m.Payload, "*shmsg.Message_Accusation") != nil) && (typeis(m.Payload, "*shmsg.Message_Apology") ==> as(m.Payload, "*shmsg.Message_Apology") != nil) && (typeis(m.Payload, "*shmsg.Message_DkgResult") ==> as(m.Payload, "*shmsg.Message_DkgResult") != nil) && ((typeis(m.Payload, "*shmsg.Message_BatchConfig") && as(m.Payload, "*shmsg.Message_BatchConfig").BatchConfig != nil) ==> len(as(m.Payload, "*shmsg.Message_BatchConfig").BatchConfig.Keypers) <= 1048576)
+//@ func (*ShutterApp).deliverMessage
+//@   requires appInv(app) && (msg != nil ==> wfPayload(msg)) && app.EONCounter < 18446744073709551614
+//@   assigns app.ShutterApp.Configs, app.CheckTxState.Members, app.ShutterApp.EONCounter, app.ShutterApp.ConfigVoting.Votes, app.ShutterApp.ConfigVoting.Candidates, mapof(map[uint64]*app.DKGInstance), mapof(map[common.Address]int), app.DKGInstance.SuccessVoting.Candidates, mapof(map[common.Address]app.ValidatorPubkey), mapof(map[common.Address]uint64), mapof(map[app.SenderReceiverPair]struct{}), mapof(map[common.Address]struct{})
+//@   ensures ret0.Code != 0 ==> (len(ret0.Events) == 0 && noEffect(app))
+//@
+//@ // C10/C11: a transaction is executed only if it decodes, names this chain and its (sender, nonce) pair is
+//@ // unused; the pair is consumed before execution; a refused transaction (code != 0) produces no events and
+//@ // changes nothing but possibly that nonce.
+//@ func (*ShutterApp).DeliverTx
+//@   requires appInv(app) && app.EONCounter < 18446744073709551614 && len(req.Tx) <= 1048576
+//@   assigns app.ShutterApp.Configs, app.CheckTxState.Members, app.ShutterApp.EONCounter, app.ShutterApp.ConfigVoting.Votes, app.ShutterApp.ConfigVoting.Candidates, mapof(map[uint64]*app.DKGInstance), mapof(map[common.Address]int), app.DKGInstance.SuccessVoting.Candidates, mapof(map[common.Address]app.ValidatorPubkey), mapof(map[common.Address]uint64), mapof(map[app.SenderReceiverPair]struct{}), mapof(map[common.Address]struct{}), mapof(map[common.Address]map[uint64]bool), mapof(map[uint64]bool)
+//@   ensures ret0.Code == 0 ==> (err == nil && bytes_str(content(msg.ChainId)) == app.ChainID && !old(nonceUsed(app.NonceTracker, signer, msg.RandomNonce)) && nonceUsed(app.NonceTracker, signer, msg.RandomNonce))
+//@   ensures ret0.Code != 0 ==> (len(ret0.Events) == 0 && noEffect(app))
+//@   ensures forall a Arr, n :: old(nonceUsed(app.NonceTracker, a, n)) ==> nonceUsed(app.NonceTracker, a, n)
+//@   ensures ntInv(app.NonceTracker)
+//@
+//@ // the mempool check refuses undecodable, foreign-chain and replayed transactions and senders outside every
+//@ // accepted keyper set
+//@ func (*ShutterApp).CheckTx
+//@   requires appInv(app) && app.CheckTxState.NonceTracker != nil && ntInv(app.CheckTxState.NonceTracker) && app.CheckTxState.TxCounts != nil && len(req.Tx) <= 1048576
+//@   assigns mapof(map[common.Address]int), mapof(map[common.Address]map[uint64]bool), mapof(map[uint64]bool)
+//@   ensures ret0.Code == 0 ==> (err == nil && bytes_str(content(msg.ChainId)) == app.ChainID && !old(nonceUsed(app.NonceTracker, signer, msg.RandomNonce)))
+//@   ensures ret0.Code == 0 ==> (old(len(app.CheckTxState.Members)) == 0 || old(pwb(app.CheckTxState.Members, signer)))
+//@ pred pwb(m, k) := has(m, k) && m[k]
